@@ -5,6 +5,8 @@ import (
 	"fmt"
 
 	schema "github.com/jsightapi/jsight-schema-core"
+	"github.com/jsightapi/jsight-schema-core/errs"
+	"github.com/jsightapi/jsight-schema-core/kit"
 	"github.com/jsightapi/jsight-schema-core/notations/jschema"
 	"github.com/jsightapi/jsight-schema-core/notations/regex"
 
@@ -133,6 +135,11 @@ func (core *JApiCore) compileUserTypeWithAllDependencies(name string) error {
 	// We should do it here 'cause it will simplify further processing.
 	if err := currUT.Check(); err != nil {
 		return jschemaToJAPIError(err, dd.GetValue(name))
+	}
+
+	if js, ok := currUT.(*jschema.JSchema); ok && js.Inner.RootNode() == nil {
+		// Nothing but comments: such a schema cannot be serialized.
+		return jschemaToJAPIError(kit.NewJSchemaError(js.File, errs.ErrEmptySchema.F()), dd.GetValue(name))
 	}
 
 	core.userTypes.Set(name, currUT)
